@@ -16,7 +16,8 @@ patterns and code tuples regenerated from `athlib/codes.py`.  Proved for all inp
   minutes below 60 under hours.
 The speed window is proved for every parsed text of at most two decimals (`C12_timed_speed_window`); idempotence of timed
 results is proved for plain-seconds results of events shorter than 800 m (`C12_plain_seconds_idempotent_partial`) and for
-`m:ss` results (no hours field) of every event longer than 200 m (`C12_mss_idempotent_partial`).
+`m:ss` results (no hours field) of every event longer than 200 m (`C12_mss_idempotent_partial`) and `h:mm:ss` results of
+every such event whose code is not `800`, `1500` or `3000` (`C12_hmmss_idempotent_partial`).
 NOT proved (kept as `C12_statement`): idempotence in general — it is false of the code (known findings, see DESIGN.md)
 and decided on the implementation by tools/checks/c12.py.
 -/
@@ -443,6 +444,122 @@ example : (match getDistance 8 "600".toList with | .ok (some 600) => true | _ =>
 /-- and 1500 m in 3:45.60 -/
 example : (match getDistance 8 "1500".toList with | .ok (some 1500) => true | _ => false) = true ∧
     timedCore "1500".toList "3:45.60".toList = .time 0 3 4560 ∧ formatTime 0 3 4560 = "3:45.6".toList := by decide +kernel
+
+/-! ## idempotence, partial: `h:mm:ss` results -/
+
+/-- the decision on fields that denote the same time again, with an hours field -/
+theorem timedDecide_again_h (disc : Str) (d h m c n' sd' k' : Nat) (hd : 0 < d) (hh : 0 < h) (hm : m < 60) (hc : c < 6000)
+    (hsd : (sd' = 1 ∧ k' = 0) ∨ (sd' = 10 ∧ k' = 1) ∨ (sd' = 100 ∧ k' = 2)) (hn : n' * 100 = c * sd')
+    (h11 : d ≤ 400 → d * 100 ≤ 11 * ((3600 * h + 60 * m) * 100 + c))
+    (h10 : 400 < d → d * 100 ≤ 10 * ((3600 * h + 60 * m) * 100 + c))
+    (hslow : (3600 * h + 60 * m) * 100 + c ≤ 2 * d * 100) :
+    timedDecide disc (some d) h m n' sd' k' = .time h m c := by
+  have h400 : (some d == some 400 && decide (m > 45)) = false := by
+    by_cases e : d = 400
+    · subst e; omega
+    · simp [e]
+  have hfirst : (m == 0 && decide (n' ≥ 100 * sd')) = false := by
+    have : ¬ (n' ≥ 100 * sd') := by
+      rcases hsd with ⟨rfl, _⟩ | ⟨rfl, _⟩ | ⟨rfl, _⟩ <;> omega
+    simp [this]
+  unfold timedDecide
+  simp only [hfirst, Bool.false_eq_true, if_false, hd, decide_true, Option.getD_some, h400]
+  unfold timedGuards speedBad
+  rcases hsd with ⟨rfl, rfl⟩ | ⟨rfl, rfl⟩ | ⟨rfl, rfl⟩
+  · have hc1 : n' * 100 / 1 = c := by omega
+    by_cases hle : d ≤ 400
+    · have := h11 hle
+      simp [hle, hc1]
+      rw [if_neg (by omega), if_neg (by omega), if_neg (by omega), if_neg (fun h => by have := h.2; omega)]
+    · have := h10 (by omega)
+      simp [hle, hc1]
+      rw [if_neg (by omega), if_neg (by omega), if_neg (by omega), if_neg (fun h => by have := h.2; omega)]
+  · have hc1 : n' * 100 / 10 = c := by omega
+    by_cases hle : d ≤ 400
+    · have := h11 hle
+      simp [hle, hc1]
+      rw [if_neg (by omega), if_neg (by omega), if_neg (by omega), if_neg (fun h => by have := h.2; omega)]
+    · have := h10 (by omega)
+      simp [hle, hc1]
+      rw [if_neg (by omega), if_neg (by omega), if_neg (by omega), if_neg (fun h => by have := h.2; omega)]
+  · have hc1 : n' * 100 / 100 = c := by omega
+    by_cases hle : d ≤ 400
+    · have := h11 hle
+      simp [hle, hc1]
+      rw [if_neg (by omega), if_neg (by omega), if_neg (by omega), if_neg (fun h => by have := h.2; omega)]
+    · have := h10 (by omega)
+      simp [hle, hc1]
+      rw [if_neg (by omega), if_neg (by omega), if_neg (by omega), if_neg (fun h => by have := h.2; omega)]
+
+/-- **An `h:mm:ss` result is accepted unchanged when validated again** (idempotence, partial), for every event longer
+    than 200 m whose code is not one of `800`, `1500`, `3000` (for those a text of three fields without a point is
+    re-read as `mm:ss.cc`: the known finding `C12-idempotence-3000-hmmss`). -/
+theorem C12_hmmss_idempotent_partial (hA : asciiDigitsOK = true) (disc t : Str) (d h m c : Nat)
+    (hg : getDistance 8 disc = .ok (some d)) (h200 : 200 < d) (hh : 0 < h)
+    (hno : strIn disc ["800", "1500", "3000"] = false) (hr : timedCore disc t = .time h m c) :
+    m < 60 ∧ c < 6000 ∧ timedCore disc (formatTime h m c) = .time h m c := by
+  have hd : 0 < d := by omega
+  obtain ⟨h0, m0, sn0, dc0, hdec⟩ := timedCore_decided disc t d hg h m c hr
+  obtain ⟨_, h11, h10, hslow⟩ := C12_timed_speed_window disc d hd h0 m0 sn0 dc0 h m c hdec
+  obtain ⟨hc', hm'⟩ := C12_timed_fields_below_60 disc (some d) h0 m0 sn0 (10 ^ dc0) dc0 h m c hdec
+  have hc : c < 6000 := hc' (Or.inl hh)
+  have hm : m < 60 := hm' hh
+  refine ⟨hm, hc, ?_⟩
+  have ha : c / 1000 < 10 := by omega
+  have hb : c / 100 % 10 < 10 := by omega
+  have he : c / 10 % 10 < 10 := by omega
+  have hf : c % 10 < 10 := by omega
+  have hpre : 2 ≤ (natStr h ++ [':'] ++ twoDigits m ++ [':']).length := by
+    simp only [List.length_append, List.length_cons, List.length_nil, twoDigits]; omega
+  have hfmt : formatTime h m c = stripTime ((natStr h ++ [':'] ++ twoDigits m ++ [':']) ++
+      [digitChar0 (c / 1000), digitChar0 (c / 100 % 10), '.', digitChar0 (c / 10 % 10), digitChar0 (c % 10)]) := by
+    unfold formatTime
+    rw [if_pos hh, fmt52_lt6000 c hc]
+  have hshape : ∀ sec : Str, (natStr h ++ [':'] ++ twoDigits m ++ [':']) ++ sec = natStr h ++ ':' :: (twoDigits m ++ ':' :: sec) := by
+    intro sec; simp [List.append_assoc]
+  rw [hfmt, stripTime_mss _ _ _ _ _ hpre (digitChar0_ne_dot' _ he) (digitChar0_ne_dot' _ hf)]
+  have hcA := digitChar0_ne_colon _ ha
+  have hcB := digitChar0_ne_colon _ hb
+  have hcE := digitChar0_ne_colon _ he
+  have hcF := digitChar0_ne_colon _ hf
+  have hdot : ('.' : Char) ≠ ':' := by decide
+  by_cases hF : digitChar0 (c % 10) = '0'
+  · have f0 : c % 10 = 0 := (digitChar0_eq_zero _ hf).1 hF
+    rw [if_neg (by simpa using hF)]
+    by_cases hE : digitChar0 (c / 10 % 10) = '0'
+    · have e0 : c / 10 % 10 = 0 := (digitChar0_eq_zero _ he).1 hE
+      rw [if_neg (by simpa using hE), hshape]
+      rw [timedCore_hmmss hA disc h m hh hm _ d hg h200 hno
+        (by intro ch hch; simp only [List.mem_cons, List.mem_nil_iff, or_false] at hch; rcases hch with rfl | rfl <;> assumption)
+        _ (floatOf_ss hA _ _ ha hb)]
+      exact timedDecide_again_h disc d h m c _ 1 0 hd hh hm hc (Or.inl ⟨rfl, rfl⟩) (by omega) h11 h10 hslow
+    · rw [if_pos (by simpa using hE), hshape]
+      rw [timedCore_hmmss hA disc h m hh hm _ d hg h200 hno
+        (by intro ch hch; simp only [List.mem_cons, List.mem_nil_iff, or_false] at hch; rcases hch with rfl | rfl | rfl | rfl <;> assumption)
+        _ (floatOf_ss_c hA _ _ _ ha hb he)]
+      exact timedDecide_again_h disc d h m c _ 10 1 hd hh hm hc (Or.inr (Or.inl ⟨rfl, rfl⟩)) (by omega) h11 h10 hslow
+  · rw [if_pos (by simpa using hF), hshape]
+    rw [timedCore_hmmss hA disc h m hh hm _ d hg h200 hno
+      (by intro ch hch; simp only [List.mem_cons, List.mem_nil_iff, or_false] at hch; rcases hch with rfl | rfl | rfl | rfl | rfl <;> assumption)
+      _ (floatOf_ss_cc hA _ _ _ _ ha hb he hf)]
+    exact timedDecide_again_h disc d h m c _ 100 2 hd hh hm hc (Or.inr (Or.inr ⟨rfl, rfl⟩)) (by omega) h11 h10 hslow
+
+theorem C12_hmmss_returned_unchanged (hA : asciiDigitsOK = true) (disc t : Str) (d h m c : Nat)
+    (hg : getDistance 8 disc = .ok (some d)) (h200 : 200 < d) (hh : 0 < h)
+    (hno : strIn disc ["800", "1500", "3000"] = false) (hr : timedCore disc t = .time h m c) :
+    checkTimed disc t = .ok (formatTime h m c) ∧ checkTimed disc (formatTime h m c) = .ok (formatTime h m c) := by
+  obtain ⟨_, _, h2⟩ := C12_hmmss_idempotent_partial hA disc t d h m c hg h200 hh hno hr
+  unfold checkTimed
+  rw [hr, h2]
+  exact ⟨rfl, rfl⟩
+
+/-- non-vacuity: a marathon in 2:10:00.00, returned as `2:10:00` -/
+example : (match getDistance 8 "MAR".toList with | .ok (some 42195) => true | _ => false) = true ∧
+    strIn "MAR".toList ["800", "1500", "3000"] = false ∧
+    timedCore "MAR".toList "2:10:00.00".toList = .time 2 10 0 ∧ formatTime 2 10 0 = "2:10:00".toList := by decide +kernel
+/-- and the excluded case: `3000` in 1:02:03.00 is returned as `1:02:03`, which is refused -/
+example : timedCore "3000".toList "1:02:03.00".toList = .time 1 2 300 ∧ formatTime 1 2 300 = "1:02:03".toList ∧
+    timedCore "3000".toList "1:02:03".toList = .refused := by decide +kernel
 
 /-- Full statement of the remaining clauses (NOT proved here). -/
 def C12_statement : Prop :=
